@@ -14,7 +14,8 @@
                    plain_results (every member's message at its own index), single_at (one message
                    at its index), all_plain ms (no member watches its context). *)
 From SC Require Import Base.Prelude Group.Exec Group.C17Judge Group.ExecLemmas Group.ExecProofs
-  Group.ExecAwareProofs Group.ContractProofs Group.ExecProc Group.ExecProcProofs.
+  Group.ExecAwareProofs Group.ContractProofs Group.ExecProc Group.ExecProcProofs
+  Group.ExecPc Group.C17PJudge Group.ExecPcProofs Group.ExecShape.
 
 (* The model equals the contract for EVERY API, member count, outcome vector, awareness (members that
    ignore their context and members that return a context error as soon as it is cancelled, in any
@@ -264,3 +265,137 @@ Proof.
   - reflexivity.
   - intros [E _]. discriminate.
 Qed.
+
+(* ================= executeEach as processes: the call itself comes back ================= *)
+
+(* not only do the goroutines executeEach starts end: the caller's range loop ends too (early return,
+   or channel closed and drained), on every schedule, for every member count, under the same
+   hypothesis (room for every member, or a caller that never leaves early) *)
+Theorem C17_call_returns : forall cap stop n s,
+  (n <= cap \/ forall l, stop l = false)%nat ->
+  reachable cap stop n s -> members_returned s -> inevitably cap stop returned s.
+Proof. exact call_returns. Qed.
+Print Assumptions C17_call_returns.
+
+(* the empty group: every strategy's loop ends and nothing is left, whatever the capacity; the only
+   goroutine that can move is the closer (without it nothing ever closes the channel) *)
+Theorem C17_empty_group_returns : forall cap stop,
+  inevitably cap stop returned (proc_init 0) /\
+  forall s', pstep cap stop (proc_init 0) s' -> s' = mkP [] [] [] true true.
+Proof. intros. split; [apply empty_group_returns|apply empty_group_only_closer_moves]. Qed.
+Print Assumptions C17_empty_group_returns.
+
+(* a caller that never leaves early (ExecuteUpTo, hence All / Most / Any) has received every
+   member's response exactly once when its loop has ended: "waits for all" *)
+Theorem C17_never_stopping_caller_receives_all : forall cap stop n s,
+  (forall l, stop l = false) -> reachable cap stop n s -> p_listening s = false ->
+  Permutation.Permutation (p_recvd s) (seq 0 n).
+Proof. exact never_stopping_caller_receives_all. Qed.
+Print Assumptions C17_never_stopping_caller_receives_all.
+
+(* ================= the parent context cancelled from outside ================= *)
+(* Vocabulary (Group/ExecPc.v): an event list (ERel i: member i is allowed to finish; EPar: the
+   parent context is cancelled), pre = the parent context was already cancelled when the call was
+   made; exec_ev a ms pre evs = the event model; its trace = the responses that reached the
+   receiving loop, in order.  trace_wf ms tr: every element of tr is some member's own response or
+   the context error of a cancellation-aware member, each member at most once.
+   upto_law / fast_law / race_law: the three loops in closed form over a received sequence. *)
+
+(* an event list without a parent cancellation is exactly the model the theorems above are about *)
+Theorem C17_event_model_extends_model : forall a ms order c0,
+  loop_of a (List.length ms) = Some c0 ->
+  exec_ev a ms false (map ERel order) = exec a ms order.
+Proof. exact exec_ev_conservative. Qed.
+Print Assumptions C17_event_model_extends_model.
+
+(* "the error returned is the first one observed", for ANY members, ANY event list (releases in any
+   order, repeated, missing; the parent cancelled at any moment, several times, or before the call):
+   there is a well-formed received sequence tr such that the call, if it has returned, returned its
+   loop's law applied to tr. *)
+Theorem C17_first_error_observed : forall a ms pre evs c0,
+  loop_of a (List.length ms) = Some c0 ->
+  exists tr, trace_wf ms tr /\
+    (x_ret (exec_ev a ms pre evs) = wrap_of a (List.length ms) RHang \/
+     x_ret (exec_ev a ms pre evs) = wrap_of a (List.length ms) (law_of c0 (List.length ms) tr)).
+Proof. exact first_error_observed. Qed.
+Print Assumptions C17_first_error_observed.
+
+(* ExecuteUpTo spelled out: slot j holds the message of the response received from member j; the call
+   fails exactly when more than k of the received responses carry an error, and then returns the
+   FIRST error of the received sequence — a member's own error or, when the parent context was
+   cancelled first, a cancellation-aware member's context error *)
+Theorem C17_upto_error_is_first_observed : forall k ms pre evs,
+  exists tr, trace_wf ms tr /\
+    (x_ret (exec_ev (AUpTo k) ms pre evs) = RHang \/
+     x_ret (exec_ev (AUpTo k) ms pre evs) =
+       RSlice (slots (List.length ms) tr) (if k <? count_err tr then first_err_of tr else 0)).
+Proof. exact upto_error_first_observed. Qed.
+Print Assumptions C17_upto_error_is_first_observed.
+
+Theorem C17_fast_returns_first_success_else_first_error_observed : forall ms pre evs,
+  exists tr, trace_wf ms tr /\
+    (x_ret (exec_ev AFast ms pre evs) = RHang \/ x_ret (exec_ev AFast ms pre evs) = fast_law tr).
+Proof. exact fast_first_observed. Qed.
+Print Assumptions C17_fast_returns_first_success_else_first_error_observed.
+
+Theorem C17_race_returns_first_observed : forall ms pre evs,
+  exists tr, trace_wf ms tr /\
+    (x_ret (exec_ev ARace ms pre evs) = RHang \/ x_ret (exec_ev ARace ms pre evs) = race_law tr).
+Proof. exact race_first_observed. Qed.
+Print Assumptions C17_race_returns_first_observed.
+
+(* once every member has been allowed to finish the call has returned — never RHang, never a panic,
+   nothing left behind — whatever else happened (parent cancelled or not, at any point) *)
+Theorem C17_call_returns_under_events : forall a ms pre evs c0,
+  loop_of a (List.length ms) = Some c0 ->
+  (forall i, (i < List.length ms)%nat -> In (ERel i) evs) ->
+  x_ret (exec_ev a ms pre evs) <> wrap_of a (List.length ms) RHang /\
+  x_ret (exec_ev a ms pre evs) <> RPanic /\ x_leak (exec_ev a ms pre evs) = 0.
+Proof. exact call_returns_ev. Qed.
+Print Assumptions C17_call_returns_under_events.
+
+(* scripted response sequences (cases KSeq: arbitrary messages and errors, the same error value from
+   several members, nil messages): the fold of the model's recv over the sequence is the closed-form
+   law, so an observation that agrees with the model satisfies the predicate *)
+Theorem C17_scripted_sequence_law : forall a n rs, seq_model a n rs = seq_law a n rs.
+Proof. exact seq_model_is_law. Qed.
+Print Assumptions C17_scripted_sequence_law.
+
+Theorem C17_scripted_judge_sound : forall a n rs obs,
+  pagrees (KSeq a n rs obs) = true -> C17P_ok (KSeq a n rs obs) = true.
+Proof. exact seq_judge_sound. Qed.
+Print Assumptions C17_scripted_judge_sound.
+
+(* never panics under events either: any API (ExecuteOne included), any members, any event list *)
+Theorem C17_never_panics_under_events : forall a ms pre evs, x_ret (exec_ev a ms pre evs) <> RPanic.
+Proof. exact exec_ev_never_panics. Qed.
+Print Assumptions C17_never_panics_under_events.
+
+(* non-vacuity: Most, 4 members; member 3 succeeds, then the parent context is cancelled: the two
+   cancellation-aware members return context errors (within the budget of 2), then member 1 fails:
+   the error returned is the first one observed, member 0's context error *)
+Example C17_nonvacuous_parent_cancel :
+  let ms := [mkM Ok true; mkM Fail false; mkM Ok true; mkM Ok false] in
+  let evs := [ERel 3; EPar; ERel 1; ERel 0; ERel 2]%nat in
+  exec_ev (AExecute 2) ms false evs = mkRes (RSlice [0; 0; 0; 4] 1001) [0; 1; 2; 3] 2 3 [2; -1; 2; -1] 0 /\
+  t_tr (run_par_t (CUpTo 2 (empty_upto 4)) ms false evs) = [mkR 3 4 0; mkR 0 0 1001; mkR 2 0 1003; mkR 1 0 2] /\
+  contract_ev (AExecute 2) ms false evs = exec_ev (AExecute 2) ms false evs.
+Proof. cbv zeta. repeat split; reflexivity. Qed.
+
+(* ================= obligations over the source (Gen/GroupExec.v, regenerated on every run) ================= *)
+
+(* Execute's switch as read from pkg/group/exec.go is the model's dispatch for every integer *)
+Theorem C17_execute_dispatch_from_source : forall s ms order,
+  exec (AExecute s) ms order = run_target (code_target s) ms order.
+Proof. exact execute_dispatch_from_source. Qed.
+Print Assumptions C17_execute_dispatch_from_source.
+
+(* executeEach as read from the source has the shape the process model was written from:
+   capacity len(members) (the hypothesis n <= cap of C17_goroutines_end / C17_call_returns),
+   all.Add(len(members)), member goroutines that send before reporting Done, one closer goroutine *)
+Theorem C17_execute_each_shape_from_source :
+  Gen.GroupExec.each_chan_cap = "len(members)"%string /\
+  Gen.GroupExec.each_wg_add = "all.Add(len(members))"%string /\
+  Gen.GroupExec.each_go_statements = 2.
+Proof. destruct execute_each_shape as [A [B [C _]]]. auto. Qed.
+Print Assumptions C17_execute_each_shape_from_source.
